@@ -96,7 +96,10 @@ def sgrid_dataset(case):
     attrs["topology_dimension"] = {"1d": 1, "2d": 2, "2dv": 2, "3d": 3}[topo]
     attrs["node_dimensions"] = " ".join(spec(a)[1] for a in horiz)
     key = "volume_dimensions" if topo == "3d" else "face_dimensions"
-    attrs[key] = " ".join(spec(a)[0] for a in horiz)
+    cells = [spec(a)[0] for a in horiz]
+    if case["seed"] % 3 == 0:
+        rr.shuffle(cells)      # the entries are matched to the node dimensions by NAME, not by place
+    attrs[key] = " ".join(cells)
     if topo == "2dv":
         attrs["vertical_dimensions"] = spec(axes[2])[0]
     ds = xr.Dataset({"grid": xr.DataArray(0, attrs=attrs)}, coords={d: coords[d] for d in order},
